@@ -525,6 +525,22 @@ theorem frames_for_constant_ratio_d (s : Stream) (n : Nat) (p q : Int) (hss : s.
   · simp only [two32] at hstop
     omega
 
+/-- **`vr_process` never delivers more than it was asked for** (`odone0 ≤ olen0`, the space reserved in the output
+    FIFO) — from any state, through snaps, stage switches and fades; and `vr_output` hands out at most `n` frames. -/
+theorem process_delivers_at_most_requested (cfg : Cfg ρ) (s : St ρ) (olen0 n : Nat) :
+    (process cfg s olen0).od ≤ olen0 ∧ (output s n).2 ≤ n := by
+  refine ⟨?_, ?_⟩
+  · exact process_induct cfg s olen0 (fun _ od _ _ => od ≤ olen0) (Nat.zero_le _) (by
+      intro l hl hlt
+      have hc := chunk_spec cfg olen0 l
+      dsimp only at hc
+      obtain ⟨_, _, c3, _, _, _, _, _, _, _, _, _, c14⟩ := hc
+      have hb := (chunk_length cfg l.st (olen0 - l.od0)).2.1
+      omega)
+  · unfold output
+    dsimp only
+    omega
+
 /-! ## 6. `soxr_set_io_ratio`: who accepts a new ratio -/
 
 /-- **Constant-rate engines refuse.**  An initialised resampler without sticky error whose engine has no
